@@ -1143,6 +1143,17 @@ def discharge(ob, inputs, timeout_ms=20000, use_cvc5=True, minimise=True):
     neg = z3.Not(ob.goal)
     backend = "z3-" + z3.get_version_string()
     r, s, dt = check_sat(ob.assumptions, [neg], min(timeout_ms, 4000))
+    if r == z3.unknown and use_cvc5 and ("fp." in ob.goal.sexpr() or "to_fp" in ob.goal.sexpr()):
+        # floating-point goals: cvc5 decides these much faster than z3 here -- ask it before spending z3's budgets
+        s0 = z3.Solver()
+        for a in ob.assumptions:
+            s0.add(a)
+        s0.add(neg)
+        v, dtc = cvc5_check(s0, timeout_ms)
+        dt += dtc
+        if v == "unsat":
+            return {"name": ob.name, "fn": ob.fn, "line": ob.lineno, "kind": ob.kind, "time_s": round(dt, 4),
+                    "backend": "cvc5-1.0.3 (floating-point goal, after z3 unknown at 4 s)", "verdict": "proved"}
     if r == z3.unknown:
         # the same z3 as a separate process on the exported query (non-incremental front end: its
         # preprocessing decides congruence-heavy mixed Int/BV queries the incremental API core gives up on)
